@@ -621,6 +621,9 @@ func (x *Exec) call(a *activation, b *ssa.BasicBlock, i int, in *ssa.Call, fr *f
 			}
 			out := tupleOf(callee.Signature, rets)
 			out = translateFacts(out, pname)
+			if os.Getenv("EXEC_TRACEFN") != "" && callee.Name() == "exprFn" && out.k == 'G' && out.agg != nil && len(out.agg.fields) == 4 {
+				fmt.Fprintf(os.Stderr, "RET exprFn -> .0=%s .3=%s (rets[0].3=%s)\n", out.agg.fields[0].String(), out.agg.fields[3].String(), rets[0].agg.fields[3].String())
+			}
 			f2.vals[in] = out
 			a.cont(b, i+1, f2, h2, p2)
 		})
